@@ -65,6 +65,12 @@ def hx(v):
     return f"float.fromhex('{v.hex()}')"
 
 
+def arr_src(a):
+    """python source of a float array, bit-exact"""
+    a = np.asarray(a, dtype=np.float64)
+    return "np.array([" + ", ".join(hx(v) for v in a.ravel().tolist()) + f"], dtype=float).reshape({a.shape!r})"
+
+
 def jv(v):
     """json-able rendering of a value / array"""
     if isinstance(v, str):
@@ -1141,6 +1147,88 @@ def primitive_grid(ctx):
 
 
 # ---------------------------------------------------------------------------------------
+# (5b) magnitude-refined model (Model/C15/Mag.lean): transfer functions + logaddexp variants
+# ---------------------------------------------------------------------------------------
+
+def classify_mag(v):
+    v = float(item(v))
+    if v != v:
+        return "nan"
+    if v == INF:
+        return "pinf"
+    if v == -INF:
+        return "ninf"
+    if v == 0:
+        return "nz" if math.copysign(1.0, v) < 0 else "pz"
+    a = abs(v)
+    lvl = "S" if a <= 2.0 ** 10 else ("M" if a <= 2.0 ** 1000 else "H")
+    return ("p" if v > 0 else "n") + lvl
+
+
+def magnitude_grid(ctx, volume=1):
+    """(i) numpy primitives vs the magnitude transfer functions; (ii) every logaddexp variant and the
+    stabilised safesub vs the class set the magnitude model predicts; (iii) the Python statement of
+    overflow-freedom: logaddexp of two finite doubles is finite."""
+    rng = ctx.rng
+    finfo = np.finfo(np.float64)
+    fl = EDGE + [2.0 ** 10, -2.0 ** 10, 2.0 ** 10 + 1, 2.0 ** 1000, -2.0 ** 1000, 2.0 ** 1000 * 1.5, 700.0, -700.0,
+                 745.2, -745.2, 709.0, 710.0, 1e308, -1e308, 1e-320, 0.5, 3.0, -2.5, 1500.0, -1500.0] \
+        + random_floats(rng, 8 * volume)
+    reqs, meta = [], []
+    bins = {"add": np.add, "sub": np.subtract, "maxnp": np.maximum, "maxpy": lambda a, b: max(a, b)}
+    uns = {"exp": np.exp, "lognp": np.log, "logpy": ops.log.default, "neg": np.negative,
+           "cliplo": lambda v: np.clip(v, finfo.min, None)}
+    for nm, f in bins.items():
+        for a, b in itertools.product(fl, repeat=2):
+            r = f(a, b) if nm == "maxpy" else f(np.float64(a), np.float64(b))
+            reqs.append(f"C15 mag prim {nm} {classify_mag(a)} {classify_mag(b)}")
+            meta.append(("prim", nm, a, b, float(r)))
+    for nm, f in uns.items():
+        for a in fl:
+            r = f(a) if nm == "logpy" else f(np.float64(a))
+            reqs.append(f"C15 mag prim {nm} {classify_mag(a)}")
+            meta.append(("prim", nm, a, None, float(r)))
+    for variant in VARIANTS:
+        for a, b in itertools.product(fl, repeat=2):
+            r = call(ops.logaddexp, *variant_args(variant, a, b))
+            if is_exc(r):
+                continue
+            rv = float(item(r))
+            if math.isfinite(a) and math.isfinite(b):
+                ctx.count("mag:finite-operands")
+                if not math.isfinite(rv):
+                    ctx.fail("input", f"C15.logaddexp-overflow:{variant}", witness=dict(op="logaddexp", variant=variant, a=jv(a), b=jv(b)),
+                             expected="a finite value", got=jv(rv),
+                             python=PRELUDE + f"r = float({variant_code('logaddexp', variant, a, b)})\nprint(r)\nFAILS = not math.isfinite(r)\n")
+                    continue
+            reqs.append(f"C15 mag logaddexp {variant} {classify_mag(a)} {classify_mag(b)} {order(a, b)}")
+            meta.append(("logaddexp", variant, a, b, rv))
+            ctx.case(nontrivial_key=("mag", variant, a.hex(), b.hex()))
+    for variant in ("arr", "numArr"):
+        for a, b in itertools.product(fl, repeat=2):
+            rv = float(item(call(ops.safesub, *variant_args(variant, a, b))))
+            reqs.append(f"C15 mag safesub {variant} {classify_mag(a)} {classify_mag(b)} {order(a, b)}")
+            meta.append(("safesub", variant, a, b, rv))
+    ans = ctx.driver.ask(reqs)
+    for (kind, nm, a, b, rv), an, rq in zip(meta, ans, reqs):
+        if not an.startswith("ok "):
+            ctx.infra_errors.append(f"driver: {an} for {rq}")
+            return
+        p = parse_sx(an[3:])
+        classes = [str(x) for x in (p[0] if kind != "prim" else p)]
+        c = classify_mag(rv)
+        ctx.count("mag:prim-checks" if kind == "prim" else "mag:class-checks")
+        if c not in classes:
+            if kind == "prim":
+                ctx.infra_errors.append(f"magnitude transfer function {nm} is unsound: {a!r}, {b!r} -> {rv!r} "
+                                        f"(class {c}) but model predicts {classes}")
+                return
+            ctx.fail("correspondence", f"C15.mag-class:{kind}:{nm}", witness=dict(op=kind, variant=nm, a=jv(a), b=jv(b), request=rq, model=an, impl=jv(rv)),
+                     expected=f"class in {classes}", got=f"{rv!r} ({c})",
+                     python=PRELUDE + f"r = float({variant_code(kind, nm, a, b)})\nprint(r)\nFAILS = True\n")
+
+
+# ---------------------------------------------------------------------------------------
 # (6) logsumexp, log-space einsum, max-plus einsum
 # ---------------------------------------------------------------------------------------
 
@@ -1223,10 +1311,8 @@ def logsumexp_stream(ctx, n_cases, use_driver=True):
         if not ok:
             ctx.fail("input", "C15.logsumexp-limit-2d", witness=dict(x=jv(xs), axis=axis, keepdims=keep),
                      expected=jv(exp), got=jv(r),
-                     python=PRELUDE + f"x = np.array({[[hx(v) for v in row] for row in xs.tolist()]!r}".replace("'", "")
-                     + f")\nr = ops.logsumexp(x, {axis}, {keep})\nprint(r)\n"
-                       f"e = np.array({[hx(v) for v in exp.ravel().tolist()]!r}".replace("'", "") + f").reshape({exp.shape!r})\n"
-                       "FAILS = not allclose12(r, e, 1e-12)\n")
+                     python=PRELUDE + f"x = {arr_src(xs)}\nr = ops.logsumexp(x, {axis}, {keep})\nprint(r)\n"
+                       f"e = {arr_src(exp)}\nFAILS = not allclose12(r, e, 1e-12)\n")
             continue
         ctx.case(nontrivial_key=("lse2", xs.tobytes(), axis, keep))
     if use_driver and reqs:
@@ -1284,6 +1370,97 @@ def einsum_oracle(eq, operands, mode):
     return res
 
 
+SYMBOL_POOL = "abcdefghijklmnopqrstuvwxyzABCDEFGHIJKLMNOPQRSTUVWXYZ0123456789αβγδεζηθικλμ"
+
+
+def many_dim_case(rng, nd):
+    """an equation with `nd` distinct dimension symbols spread over several small operands.  Up to 14 dims
+    have size 2 (the implementation's np.einsum iterates the full index space), the rest size 1.
+    Adversarial choice: all 26 lowercase letters plus symbols that sort before them, and the LAST symbols
+    in sorted order get size 2 — a renaming that runs out of letters leaves exactly those un-renamed and
+    makes them collide with renamed ones (a diagonal instead of a full sum)."""
+    lower, other = "abcdefghijklmnopqrstuvwxyz", "ABCDEFGHIJKLMNOPQRSTUVWXYZ0123456789"
+    if nd > 26 and rng.random() < 0.75 and nd - 26 <= len(other):
+        syms = list(lower) + rng.sample(other, nd - 26)
+    else:
+        syms = rng.sample(SYMBOL_POOL, nd)
+    srt = sorted(syms)
+    big = set(srt[-8:]) | set(rng.sample(syms, min(nd, rng.randint(2, 6))))
+    sizes = {d: (2 if d in big else 1) for d in syms}
+    dims, todo = [], list(syms)
+    rng.shuffle(todo)
+    while todo:
+        k = min(len(todo), rng.randint(2, 4))
+        ds = [todo.pop() for _ in range(k)]
+        if dims and rng.random() < 0.6:       # share a dim with an earlier operand
+            d = rng.choice(rng.choice(dims))
+            if d not in ds:
+                ds.append(d)
+        rng.shuffle(ds)
+        dims.append(tuple(ds))
+    out = rng.sample(sorted(big), min(len(big), rng.randint(0, 3)))
+    eq = ",".join("".join(ds) for ds in dims) + "->" + "".join(out)
+    operands = []
+    for ds in dims:
+        shape = tuple(sizes[d] for d in ds)
+        n = int(np.prod(shape))
+        c = rng.choice([0.0, 0.0, 3.0, -5.0])
+        v = [(-INF if rng.random() < 0.1 else float(c + rng.uniform(-3, 0))) for _ in range(n)]
+        operands.append(np.array(v, dtype=np.float64).reshape(shape))
+    return eq, dims, operands
+
+
+def many_dim_oracle(eq, operands):
+    """linear-space oracle: np.einsum (pairwise, optimize=True) under OUR OWN injective renaming"""
+    syms = sorted(set(eq) - set(",->"))
+    if len(syms) > 52:
+        return None
+    ren = dict(zip(syms, "abcdefghijklmnopqrstuvwxyzABCDEFGHIJKLMNOPQRSTUVWXYZ"))
+    eq2 = "".join(ren.get(ch, ch) for ch in eq)
+    lin = np.einsum(eq2, *[np.exp(o) for o in operands], optimize=True)
+    with np.errstate(divide="ignore"):
+        return np.log(lin)
+
+
+def many_dim_stream(ctx, n_cases):
+    """numpy_log.einsum renames the symbols onto a 52-letter alphabet: 27..52 distinct dims must give the
+    right value (two dims must never share a letter), more than 52 must decline."""
+    from funsor.einsum.numpy_log import einsum as log_einsum
+    rng = ctx.rng
+    for k in range(n_cases):
+        nd = [27, 28, 29, 30, 53, 60][k] if k < 6 else rng.choice([5, 12, 26, 27, 28, 29, 30, 31, 40, 52, 53, 54, 60, 70])
+        eq, dims, operands = many_dim_case(rng, nd)
+        r = call(log_einsum, eq, *operands)
+        ctx.count(f"einsum:many-dims:{'<=26' if nd <= 26 else ('27-52' if nd <= 52 else '>52')}")
+        w = dict(equation=eq, ndims=nd, operands=[jv(o) for o in operands])
+        src = ", ".join(arr_src(o) for o in operands)
+        if is_exc(r):
+            ctx.count(f"einsum:many-dims:declined:{r[1]}")
+            if nd <= 52:
+                ctx.count("einsum:many-dims:declined-within-alphabet")
+            continue
+        exp = many_dim_oracle(eq, operands)
+        if exp is None:     # a value for more than 52 symbols: compare with the brute-force oracle
+            exp = einsum_oracle(eq, operands, "log")
+        r = np.asarray(r, dtype=np.float64)
+        # 1e-10 * max(1, |expected|): up to ~15 operands accumulate rounding in two different orders
+        ok = r.shape == exp.shape and all(a == b or (a == a and b == b and not math.isinf(a) and not math.isinf(b)
+                                          and abs(a - b) <= 1e-10 * max(abs(b), 1.0))
+                                          for a, b in zip(r.ravel().tolist(), exp.ravel().tolist()))
+        if not ok:
+            ctx.fail("input", "C15.einsum-log-many-dims" if nd <= 52 else "C15.einsum-log-beyond-alphabet",
+                     witness=w, expected=jv(exp), got=jv(r),
+                     python=PRELUDE + "from funsor.einsum.numpy_log import einsum\n"
+                     f"r = call(lambda: np.asarray(einsum({eq!r}, {src})))\nprint(r)\n"
+                     f"e = {arr_src(exp)}\n"
+                     f"FAILS = not isinstance(r, tuple) and (r.shape != e.shape or not all(x == y or (x == x and y == y and not math.isinf(x) "
+                     f"and not math.isinf(y) and abs(x - y) <= 1e-10 * max(abs(y), 1.0)) "
+                     f"for x, y in zip(r.ravel().tolist(), e.ravel().tolist())))\n")
+            continue
+        ctx.case(sample=dict(op="einsum-log", ndims=nd, equation=eq) if k == 0 else None,
+                 nontrivial_key=("einsum-many", eq, tuple(o.tobytes() for o in operands)))
+
+
 def einsum_stream(ctx, n_cases, use_driver=True):
     from funsor.einsum.numpy_log import einsum as log_einsum
     from funsor.einsum.numpy_map import einsum as map_einsum
@@ -1303,7 +1480,9 @@ def einsum_stream(ctx, n_cases, use_driver=True):
             sizes = {d: rng.randint(1, 3) for d in "abc"}
             # per-operand band (width <= 30) around a centre; the centres' sum stays representable
             centres = [rng.choice([0.0, 0.0, 5.0, -700.0, 700.0, 5e307, -5e307, 1.7e308, -1.7e308]) for _ in dims]
-            while abs(sum(centres)) > 1.75e308:
+            # stated domain: every partial sum of the shifts is representable (KF-logeinsum-shift-overflow
+            # owns the region where it is not)
+            while any(abs(sum(centres[:j + 1])) > 1.75e308 for j in range(len(centres))):
                 centres[rng.randrange(len(centres))] = 0.0
             operands = []
             for ds, c in zip(dims, centres):
@@ -1330,13 +1509,12 @@ def einsum_stream(ctx, n_cases, use_driver=True):
             return abs(a - b) <= 1e-12 * max(abs(b), scale)
         ok = r.shape == exp.shape and all(close(a, b) for a, b in zip(r.ravel().tolist(), exp.ravel().tolist()))
         if not ok:
-            ops_src = ", ".join("np.array(" + repr([[hx(v) for v in row] for row in np.atleast_2d(o).tolist()]).replace("'", "")
-                                + f").reshape({o.shape!r})" for o in operands)
+            ops_src = ", ".join(arr_src(o) for o in operands)
             ctx.fail("input", f"C15.einsum-{mode}-limit", witness=dict(equation=eq, operands=[jv(o) for o in operands], mode=mode),
                      expected=jv(exp), got=jv(r),
                      python=PRELUDE + f"from funsor.einsum.numpy_{'log' if mode == 'log' else 'map'} import einsum\n"
                      f"r = np.asarray(einsum({eq!r}, {ops_src}))\nprint(r)\n"
-                     f"e = np.array({[hx(v) for v in exp.ravel().tolist()]!r}".replace("'", "") + f").reshape({exp.shape!r})\n"
+                     f"e = {arr_src(exp)}\n"
                      f"FAILS = r.shape != e.shape or not all(same(x, y) or (x == x and y == y and not math.isinf(x) and not math.isinf(y) "
                      f"and abs(x - y) <= 1e-12 * max(abs(y), {scale!r})) for x, y in zip(r.ravel().tolist(), e.ravel().tolist()))\n")
             continue
@@ -1409,6 +1587,74 @@ def kf_stream(ctx):
                  python=KF_PY)
 
 
+KF2 = "KF-logeinsum-shift-overflow"
+KF2_PY = PRELUDE + """from funsor.einsum.numpy_log import einsum
+r1 = einsum("a,a->", np.array([9e307, -inf]), np.array([-inf, 9e307]))      # every term is -inf: exact value -inf
+r2 = einsum("a,a,a->", np.array([1e308]), np.array([1e308]), np.array([-1e308]))   # exact value 1e308
+print("disjoint supports, shifts 9e307 + 9e307:", r1, "  three operands 1e308 + 1e308 - 1e308:", r2)
+FAILS = bool(r1 != r1)
+"""
+
+
+def kf2_stream(ctx):
+    from funsor.einsum.numpy_log import einsum as log_einsum
+    rng = ctx.rng
+    hits, tried = [], 0
+    cases = [([9e307, -INF], [-INF, 9e307]), ([1.7e308, -INF], [-INF, 1e307]), ([FMAX, -INF, -INF], [-INF, 1.0, FMAX])]
+    for _ in range(20):
+        a, b = rng.uniform(9e307, 1.7e308), rng.uniform(9e307, 1.7e308)
+        cases.append(([a, -INF], [-INF, b]))
+    for xs, ys in cases:
+        r = call(log_einsum, "a,a->", np.array(xs), np.array(ys))
+        tried += 1
+        exp = einsum_oracle("a,a->", [np.array(xs), np.array(ys)], "log")
+        if not is_exc(r) and float(r) != float(r) and float(exp) == -INF:
+            hits.append((xs, ys))
+    r3 = call(log_einsum, "a,a,a->", np.array([1e308]), np.array([1e308]), np.array([-1e308]))
+    sibling = (not is_exc(r3)) and float(np.asarray(r3)) == INF
+    ctx.count("kf2-stream:tried", tried)
+    ctx.count("kf2-stream:nan", len(hits))
+    reproduced = bool(hits)
+    what = (f"numpy_log.einsum sums the shifts before the log term (sum(shifts + [result])): {len(hits)}/{tried} "
+            "inner products with disjoint supports and shifts whose sum overflows return nan (exact value -inf), "
+            "e.g. einsum('a,a->', [9e307,-inf], [-inf,9e307])"
+            + ("; einsum('a,a,a->', [1e308],[1e308],[-1e308]) = inf (exact 1e308)" if sibling else ""))
+    ctx.case(sample=dict(stream=KF2, reproduced=reproduced, nan_cases=len(hits), sibling_inf=bool(sibling)),
+             nontrivial_key=("kf2", len(hits), bool(sibling)))
+    if not ctx.known(KF2, reproduced, what if reproduced else None) and reproduced:
+        ctx.fail("input", "C15.einsum-log-shift-overflow",
+                 witness=dict(equation="a,a->", operands=[jv(hits[0][0]), jv(hits[0][1])]),
+                 expected="-inf", got="nan", python=KF2_PY)
+
+
+CLASSIFICATION = {
+    "safesub/safediv/reciprocal scalar + (array, Number) variants unstabilised":
+        dict(verdict="finding", id=KF, theorem="safesub_unstabilised_witness, safediv_unstabilised_witness, reciprocal_scalar_witness"),
+    "log-einsum: shift sum overflows while the log term is -inf -> nan":
+        dict(verdict="finding", id=KF2, theorem="logEinsumDot_overflow_witness; suggested order proved NaN-free: logEinsumDotFixed_never_nan"),
+    "log-einsum: per-operand spread > 745 (e.g. [800,0]·[-800,5] -> -inf, exact 5.0067)":
+        dict(verdict="outside-domain", reason="exp(entry - shift) underflows to 0 inside one operand; the stated band of the "
+             "log-space einsum is spread < 745 per operand (every exp(entry - shift) > 0); not a limit at -inf nor at the range boundary",
+             theorem="logEinsumDot_underflow_witness (model admits -inf for all-finite operands), logEinsumDot_band_never_ninf (not inside the band)"),
+    "scalar log(-1.) = -inf but array log = nan":
+        dict(verdict="outside-domain", reason="x < 0 is not in log's domain; the scalar guard `x > 0 else -inf` exists for log(0) = -inf "
+             "(and, by accident, rescues logaddexp(-inf,-inf)); on x >= 0 (incl. -0.0) the variants agree",
+             theorem="log_variants_agree, log_differs_below_zero"),
+    "safediv(0., -0.) = nan (also 0/negative-subnormal)":
+        dict(verdict="outside-domain", reason="the divisor domain is +0, positive or +inf (linear-space measures); 1/-0 = -inf is not clipped "
+             "(only the upper bound is) and 0 * -inf = nan; characterised exactly",
+             theorem="safediv_nan_iff, safediv_never_nan"),
+    "safediv(5e-324, 5e-324) = 8.9e-16 (subnormal divisor)":
+        dict(verdict="outside-domain", reason="the clipped reciprocal of a subnormal is finfo.max, not 1/y; divisors are 0 or normal",
+             theorem="(grid only)"),
+    "safesub(+inf,+inf) = nan, safediv(inf,inf) = nan in every variant":
+        dict(verdict="outside-domain", reason="genuinely indeterminate; +inf is not a log-space / finite linear value", theorem="safesub_nan_iff, safediv_nan_iff"),
+    "sample(array(-inf), array(-inf)) = nan":
+        dict(verdict="outside-property", reason="ops.sample is not named by the property; it reuses logaddexp's unclipped default body on arrays; "
+             "a UNITS[sample] entry would be refuted by the law grid", theorem="sample_on_arrays_nan_at_ninf"),
+}
+
+
 def observations(ctx):
     """behaviour OUTSIDE the stated domains, recorded (never gated) so the evidence shows where the
     domain boundaries of the theorems lie on the real code"""
@@ -1423,13 +1669,14 @@ def observations(ctx):
             call(ops.safediv, np.asarray(SUB), np.asarray(SUB)),
         "sample(array(-inf), array(-inf)) -> nan (ops.sample uses the unclipped default body on arrays)":
             call(ops.sample, np.asarray(-INF), np.asarray(-INF)),
-        "log-einsum a,a-> [9e307,-inf]·[-inf,9e307] -> nan (sum of shifts overflows; exact value -inf)":
+        "log-einsum a,a-> [9e307,-inf]·[-inf,9e307] -> nan (finding KF-logeinsum-shift-overflow)":
             call(log_einsum, "a,a->", np.array([9e307, -INF]), np.array([-INF, 9e307])),
         "log-einsum a,a-> [800,0]·[-800,5] -> -inf not 5.0067 (per-operand dynamic range > 745)":
             call(log_einsum, "a,a->", np.array([800.0, 0.0]), np.array([-800.0, 5.0])),
         "scalar log(-1.) -> -inf but array log -> nan (x < 0 outside domain)":
             (call(ops.log, -1.0), call(ops.log, np.asarray(-1.0))),
     }
+    ctx.extra["classification"] = CLASSIFICATION
     ctx.extra["observations_outside_domain"] = {k: jv(v) if not is_exc(v) else list(v) for k, v in obs.items()}
     same_default = getattr(ops.sample, "default", None) is getattr(ops.logaddexp, "default", 1)
     ctx.extra["sample_default_is_logaddexp_default"] = bool(same_default)
@@ -1466,6 +1713,7 @@ def correspond(ctx):
     agreement_grid(ctx)
     special_grid(ctx)
     primitive_grid(ctx)
+    magnitude_grid(ctx)
     big = ctx.tier != "quick"
     logsumexp_stream(ctx, 12000 if big else 300)
     einsum_stream(ctx, 12000 if big else 400)
@@ -1473,7 +1721,9 @@ def correspond(ctx):
         for _ in range(16):
             agreement_grid(ctx)
             special_grid(ctx)
+    many_dim_stream(ctx, 3000 if big else 200)
     kf_stream(ctx)
+    kf2_stream(ctx)
     observations(ctx)
     ctx.exhaustive = False
     ctx.assumptions += [
@@ -1504,5 +1754,6 @@ def search(ctx, broken):
         special_grid(ctx, use_driver=False, volume=3)
         logsumexp_stream(ctx, 1500, use_driver=False)
         einsum_stream(ctx, 1500, use_driver=False)
+        many_dim_stream(ctx, 150)
         if sum(1 for f in ctx.failures if f.witness is not None and f.kind == "input") > n0:
             return
